@@ -317,7 +317,7 @@ fn cpu_time() -> f64 {
 /// Oracles: retained ≤ 16·bytes received + 64 KiB; CPU(4n) ≤ 8·CPU(n) once CPU(4n) ≥ 0.4 s.
 pub fn run_iceflood(run: &mut Run, mode: u8, count: u32) {
     let case = format!("iceflood {mode} {count}");
-    let r = crate::catch(move || {
+    let r = super::catch_ack(move || {
         let mut out = (0u64, 0u64, [0f64; 2], 0usize);
         for (round, n) in [count / 4, count].into_iter().enumerate() {
             let live = Live::with(mode, true, None);
